@@ -19,6 +19,7 @@ FLOOR = 64.0
 ILL_CONDITIONED = 1e4
 DYNAMIC_RANGE = 1e30
 TOL_USER = 1e3
+SINGULAR_RULE = 1e12
 ASYMPTOTIC = 1e-2
 C_X = 1e4
 
@@ -55,7 +56,7 @@ class C01(Prop):
             self.table = dc.load_constants().get('C01_tol', {})
         except Exception:
             self.table = {}
-        self.constants = {'FLOOR_eps_multiple': FLOOR, 'ILL_CONDITIONED': ILL_CONDITIONED, 'DYNAMIC_RANGE': DYNAMIC_RANGE, 'TOL_USER': TOL_USER, 'ASYMPTOTIC': ASYMPTOTIC, 'C_X': C_X, 'tol_table': 'nverif/constants.json:C01_tol'}
+        self.constants = {'FLOOR_eps_multiple': FLOOR, 'ILL_CONDITIONED': ILL_CONDITIONED, 'DYNAMIC_RANGE': DYNAMIC_RANGE, 'TOL_USER': TOL_USER, 'SINGULAR_RULE': SINGULAR_RULE, 'ASYMPTOTIC': ASYMPTOTIC, 'C_X': C_X, 'tol_table': 'nverif/constants.json:C01_tol'}
 
     def strategy(self, tier):
         return dc.derivative_case()
@@ -104,6 +105,21 @@ class C01(Prop):
                     if np.isfinite(lb[1]) and lb[1] - max(lb[0], -700.0) > math.log(DYNAMIC_RANGE):
                         bucket += '+range'
                         break
+        # numerically singular rule (moment matrix condition above 1e12, e.g. forward n=10 with a
+        # user step ratio of 4): C06 excludes these systems, the pseudo-inverse truncates them and the
+        # result can be 100 % off; own (weak) class
+        if bucket == 'user' and method != 'multicomplex':     # (the default cells are calibrated including these)
+            try:
+                rule_obj = ev.d.fd_rule
+                order_, mo = rule_obj.n - 1, rule_obj.method_order
+                parity = rule_obj._parity(method, order_, mo)
+                nterms = (order_ + mo) // rule_obj.richardson_step
+                if nterms > 1:
+                    kappa = np.linalg.cond(rule_obj._fd_matrix(float(abs(ev.ratio)), parity, nterms))
+                    if not (kappa <= SINGULAR_RULE):
+                        bucket += '+singular'
+            except Exception:
+                pass
         ctx.count('k_est=%s' % dc.kbucket(ev.k_est))
         ctx.count('cfg=%s' % bucket)
         # library-chosen steps: calibrated table on the best-window unit; user-supplied steps: a fixed
